@@ -246,6 +246,21 @@ example : BrOk { N := 2048, b := 19, rs := 2, rank := 1, dnum := 2, dsize := 1, 
 example : BrOk { N := 256, b := 12, rs := 5, rank := 2, dnum := 4, dsize := 1, S := 5, big128 := false, sk := [[], []], Dm := 2 ^ 11, BE := 2 ^ 20 } 7 := by
   decide
 
+/-- the blind rotation of the crate's circuit bootstrapping with a secret of `‖s_i‖₁ = 256` and key errors `≤ 5120` units of `2^-60` (`20·2^-52`) -/
+def testP : Par :=
+  { N := 256, b := 12, rs := 5, rank := 2, dnum := 4, dsize := 1, S := 5, big128 := false,
+    sk := [List.replicate 256 1, List.replicate 256 1], Dm := 2 ^ 11, BE := 5120 }
+
+/-- **`blind_condition_test_params_executed`** — the explicit bound of `blind_rotation_noise_executed` on those parameters (`n_lwe = 77` in 11 blocks
+of 7; units of `2^-120` of the torus): the side conditions hold, nothing is lost by the block normalisation (`brU = 0`), the un-multiplied fifth limb
+contributes less than `2^-38`, and the accumulated worst-case error is below `2^-16` — a table encoded at `2^-13` decodes exactly
+(`blind_rotation_correct_executed`), as measured (`./check C14`, evidence `blind_noise`: largest measured error `2^-27.6`). -/
+theorem blind_condition_test_params_executed :
+    BrOk testP 7 ∧ brU testP = 0 ∧
+    2 ^ (testP.b * testP.S) * KsDec.truncBound testP.b (min testP.rs testP.dnum) (min testP.rs testP.dnum) testP.sk testP.rank testP.rs testP.Hin < 2 ^ 82 ∧
+    2 * (2 * (77 * brB testP) + 11 * brU testP) < 2 ^ 105 := by
+  decide +kernel
+
 /-- a toy parameter set on which every hypothesis of the theorems can be exhibited: `N = 1`, rank `0`, one row, one limb, radix `4` -/
 def toyP : Par := { N := 1, b := 2, rs := 1, rank := 0, dnum := 1, dsize := 1, S := 1, big128 := false, sk := [], Dm := 1, BE := 0 }
 
